@@ -12,9 +12,24 @@ use crate::{
     osu,
     props::c03,
     rng::{hash_str, Rng},
-    runner::{api, guard, truncate, Ctx, PanicInfo},
+    runner::{api, guard, last_call_heap, truncate, Ctx, PanicInfo},
     sets::{self, SetDomain},
 };
+
+/// Memory budget of a single API call on a map within editor ranges (<= 400 objects, <= 3 h): the largest legitimate
+/// high-water mark observed on the unchanged tree is reported in the evidence (`max_call_heap_kib:realistic`);
+/// the budget is more than an order of magnitude above it. The adversarial domain is only bound by the 4 GiB rlimit.
+thread_local! {
+    /// estimated number of 400 ms strain sections of the current map at the current clock rate (0 before the sweep of a mode)
+    static EST_SECTIONS: std::cell::Cell<f64> = const { std::cell::Cell::new(0.0) };
+}
+
+/// Memory budget of a single API call: legitimate heap use is a small constant (decoded map, nested slider objects, bounded
+/// by the domain filter) plus the strain peaks, which are proportional to the number of sections (40 B/section measured for
+/// `strains()` of the five taiko skills). The budget leaves a factor of four on the per-section part; the largest share of the
+/// budget actually used on the unchanged tree is reported in the evidence (`max_heap_permille_of_budget`).
+const HEAP_BASE: u64 = 256 << 20;
+const HEAP_PER_SECTION: f64 = 160.0;
 
 fn report(ctx: &mut Ctx, what: &str, mode: &str, p: &PanicInfo, detail: &str, text: &str) {
     ctx.violation(
@@ -28,7 +43,20 @@ fn report(ctx: &mut Ctx, what: &str, mode: &str, p: &PanicInfo, detail: &str, te
 fn step<T>(ctx: &mut Ctx, label: &'static str, mode: &str, detail: &str, text: &str, f: impl FnOnce() -> T) -> Option<T> {
     ctx.eval();
     match guard(|| api(label, f)) {
-        Ok(v) => Some(v),
+        Ok(v) => {
+            let heap = last_call_heap();
+            let budget = HEAP_BASE + (HEAP_PER_SECTION * EST_SECTIONS.with(std::cell::Cell::get)) as u64;
+            ctx.max("max_call_heap_kib", heap >> 10);
+            ctx.max("max_heap_permille_of_budget", heap.saturating_mul(1000) / budget);
+            if heap > budget {
+                ctx.violation(
+                    &format!("C05/mem@{label}/{mode}"),
+                    &format!("{label} ({mode}) needed {} MiB of heap, budget for this map and clock rate is {} MiB | {detail}", heap >> 20, budget >> 20),
+                    Some(text),
+                );
+            }
+            Some(v)
+        }
         Err(p) => {
             report(ctx, label, mode, &p, detail, text);
             None
@@ -39,6 +67,7 @@ fn step<T>(ctx: &mut Ctx, label: &'static str, mode: &str, detail: &str, text: &
 #[allow(clippy::too_many_lines)]
 pub fn case(ctx: &mut Ctx, idx: u64) {
     let mut rng = Rng::for_case(ctx.seed, "C05", idx);
+    EST_SECTIONS.with(|c| c.set(0.0));
     let debug_build = cfg!(debug_assertions);
     let max_objects = if ctx.thorough() { 400 } else { 150 };
     // input source
@@ -132,6 +161,7 @@ pub fn case(ctx: &mut Ctx, idx: u64) {
         let clock = spec.clock.unwrap_or(0.75).clamp(0.01, 100.0);
         let sections = maps::est_sections(&map, clock);
         let heavy = sections > 1e6;
+        EST_SECTIONS.with(|c| c.set(sections));
         if heavy {
             ctx.count("class:>1e6-sections");
         }
